@@ -871,3 +871,79 @@ def r_readonly_id_unique(ctx):
                               % unparse(st), instance=inst)
     # the id is taken before the increment
     ctx.expect_min(2)
+
+
+@rule('R-reconnect-wiring', 'the TCP transport keeps trying: its tick callback is registered and dials every member that has no live '
+                            'connection; a lost member connection is reported and re-dialled at once; an accepted connection is '
+                            'registered before the node is reported connected')
+def r_reconnect_wiring(ctx):
+    P = ctx.P
+    T = transport_parts(ctx)
+    init = T.methods['__init__']
+    # (1) tick callback registered
+    reg = [c for c in P.calls_in(init) if isinstance(c.func, ast.Attribute) and c.func.attr == 'addOnTickCallback' and c.args]
+    inst = 'transport tick callback registered'
+    ctx.tick()
+    tickcb = None
+    if reg:
+        a = reg[0].args[0]
+        if isinstance(a, ast.Attribute) and isinstance(a.value, ast.Name) and a.value.id == init.self_name:
+            tickcb = T.methods.get(a.attr)
+    if tickcb is not None:
+        ctx.ok(inst, init.loc(reg[0]), 'addOnTickCallback(self.%s)' % tickcb.name)
+    else:
+        ctx.violation('TCPTransport.__init__:no-tick-callback', init.loc(), 'the transport does not register a tick callback: lost connections are never re-dialled', instance=inst)
+        ctx.expect_min(1)
+        return
+    # (2) the tick callback reaches connect() for every member
+    cs = T.methods.get('_connectIfNecessarySingle')
+    reach = P.reachable_funcs([tickcb], follow_field=False)
+    inst = 'every tick dials members without a live connection'
+    ctx.tick()
+    loops_all = False
+    for g in reach:
+        for n in ast.walk(g.node):
+            if isinstance(n, ast.For) and P.self_attr(n.iter, g.self_name) and any(isinstance(c, ast.Call) and cs in P.resolve_call(g, c).targets for c in ast.walk(n)):
+                loops_all = P.self_attr(n.iter, g.self_name)
+    if cs in reach and loops_all:
+        ctx.ok(inst, tickcb.loc(), 'tick -> loop over self.%s -> %s' % (loops_all, cs.name))
+    else:
+        ctx.violation('TCPTransport:tick-does-not-dial', tickcb.loc(), 'the tick callback does not loop over the member set calling the dial routine', instance=inst)
+    # (3) a lost member connection is reported and re-dialled
+    od = T.methods['_onDisconnected']
+    ex = U.explorer(ctx, od)
+    cfg = ex.cfg
+
+    def ev(n):
+        out = []
+        if n.kind == 'stmt' and n.ast is not None:
+            for c in [x for x in ast.walk(n.ast) if isinstance(x, ast.Call) and isinstance(x.func, ast.Attribute)]:
+                if c.func.attr == '_onNodeDisconnected':
+                    out.append('report')
+                if cs is not None and cs in P.resolve_call(od, c).targets:
+                    out.append('redial')
+                if c.func.attr == '_onReadonlyNodeDisconnected':
+                    out.append('report-ro')
+        return out
+    res = ex.run(track=ev, follow_exc=False)
+    outcomes = set(cnt for fs, cnt in res.cstates.get(cfg.exit.id, ()))
+    inst = 'lost member connection: reported and re-dialled'
+    ctx.tick(len(outcomes))
+    member = [dict(c) for c in outcomes if dict(c).get('report')]
+    if member and all(d.get('redial') for d in member) and any(dict(c).get('report-ro') for c in outcomes):
+        ctx.ok(inst, od.loc(), 'outcomes %s' % sorted(outcomes))
+    else:
+        ctx.violation('TCPTransport._onDisconnected:no-report-or-redial', od.loc(), 'on a lost connection the transport does not both report the member as disconnected and re-dial it (outcomes %s)' % sorted(outcomes), instance=inst)
+    # (4) incoming: registered before reported
+    inc = T.methods['_onIncomingMessageReceived']
+    icfg = U.explorer(ctx, inc).cfg
+    regs = [n.id for n in icfg.nodes if n.kind == 'stmt' and isinstance(n.ast, ast.Assign) and isinstance(n.ast.targets[0], ast.Subscript) and P.self_attr(n.ast.targets[0].value, inc.self_name)
+            and isinstance(n.ast.value, ast.Name) and n.ast.value.id == inc.params[1]]
+    reps = [n for n in icfg.nodes if n.kind == 'stmt' and n.ast is not None and any(isinstance(c, ast.Call) and isinstance(c.func, ast.Attribute) and c.func.attr in ('_onNodeConnected', '_onReadonlyNodeConnected') for c in ast.walk(n.ast))]
+    inst = 'accepted connection registered before the node is reported connected'
+    ctx.tick()
+    if regs and reps and all(r.id not in icfg.reachable_from(icfg.entry.id, avoid=regs) for r in reps):
+        ctx.ok(inst, inc.loc(), '')
+    else:
+        ctx.violation('TCPTransport._onIncomingMessageReceived:reported-before-registered', inc.loc(), 'a node can be reported connected before its connection is registered (send() then fails although the node is "connected")', instance=inst)
+    ctx.expect_min(4)
